@@ -23,7 +23,8 @@ R32d live data supersedes stored data: a route that lists both the registered (l
      row and is judged by the roles it had when it last disconnected.
 R32e unknown is not open: has_access treats an empty set of required roles as "open to everyone". The engine data of a unit is created at
      registration, before the engine has reported its roles (UodInfoMsg), with an empty set. So (1) EngineData carries a flag that the
-     roles are known, initialised False and set only where the reported roles are stored (FromEngine.uod_info_changed); (2) has_access
+     roles are known, initialised False and set only where roles are stored (the setter of EngineData.required_roles, or the function that stores the
+     reported roles); (2) has_access
      denies - before it looks at the set - while that flag is false; (3) RecentEngineRepository.store_recent_engine overwrites the stored
      roles of an existing row only when they are known. Otherwise every unit is listed, readable and commandable by a user without any
      role between each (re)connect and its UodInfoMsg - for the whole session when that message is rejected - and a session that ends
@@ -460,7 +461,7 @@ def _r32e(ctx) -> None:
             for t, v, st in assigned_attrs(fn.node):
                 if t.attr == flag and isinstance(v, ast.Constant) and v.value is True:
                     setters.append((fn, st))
-        bad = [(fn, st) for fn, st in setters if not any(t.attr == "required_roles" for t, v, s_ in assigned_attrs(fn.node))]
+        bad = [(fn, st) for fn, st in setters if not any(t.attr.endswith("required_roles") for t, v, s_ in assigned_attrs(fn.node))]
         if setters and not bad:
             ctx.ok("R32e", inst, {"rule": "R32e", "set_in": sorted({fn.short for fn, _ in setters})})
         elif not setters:
